@@ -888,7 +888,8 @@ func (state *RuntimeState) checkAuth(w http.ResponseWriter, r *http.Request, req
 			var authData authInfo
 			tlsAuthUser, notBefore, err :=
 				state.getUsernameIfKeymasterSigned(r.TLS.VerifiedChains)
-			if err == nil && tlsAuthUser != "" {
+			if err == nil && tlsAuthUser != "" &&
+				(requiredAuthType&AuthTypeKeymasterX509) != 0 {
 				state.logger.Debugf(4, "Auth, Is keymastercert")
 				authData.AuthType = authData.AuthType | AuthTypeKeymasterX509
 				authData.IssuedAt = notBefore
